@@ -28,7 +28,9 @@ MANIFEST = dict(
          'py2coq_sym regenerates on every run by symbolic execution of Gradient3D._compute_gradient_hexahedral/_simplex incl. the shape-function '
          'closures and loops; plus the row-count dispatch table and the rows written. Gradient (least squares): lstsq_linear_exact under the '
          'normal-equation contract of lstsq (satisfiable), positional_lookup_correct_contiguous / gradient_linear_exact_contiguous_ids for node '
-         'ids 1..N and positional_ids_refuted / gradient_noncontiguous_ids_refuted otherwise (hand-written model of _calc_lst_sqr). '
+         'ids 1..N and positional_ids_refuted / gradient_noncontiguous_ids_refuted otherwise (hand-written model of _calc_lst_sqr as it was before '
+         'fix abcd746, which replaced the positional look-up by an id look-up: gradient_spec is the repaired behaviour, and the renumbering '
+         'relation on the implementation now holds for every id assignment). '
          'HotSpot.calc: executable Gallina model; hotspot_threshold_exact, hotspot_above_is_threshold, hotspot_labels_are_components '
          '(label equality <=> equivalence closure of shared-node/shared-element adjacency among rows above the threshold), '
          'hotspot_numbered_by_descending_peak (labels 1..K without gaps, smaller label = higher peak), unbounded, all fuel shown sufficient. '
